@@ -225,6 +225,10 @@ pub struct World {
     pub truncated: bool,
     direct_started: usize,
     pub effects: u32,
+    /// virtual wall clock on the 5 s grid: ticks + downtimes (settle milliseconds excluded)
+    grid_s: u64,
+    /// per stored state key: (grid time when Pending was written, seconds already aged)
+    pending_meta: std::collections::BTreeMap<Vec<String>, (u64, u64)>,
     crash_pending: Option<(u64, bool)>,
     in_probe: bool,
     /// answers produced in the current lifetime, by window (for lose_last)
@@ -301,6 +305,8 @@ impl World {
             truncated: false,
             direct_started: 0,
             effects: 0,
+            grid_s: 0,
+            pending_meta: std::collections::BTreeMap::new(),
             crash_pending: None,
             in_probe: false,
             answers_by_win: vec![],
@@ -345,14 +351,22 @@ impl World {
                     self.answers_by_win.clear();
                     // virtual clock: the lifetime's elapsed time was folded into base_ms at its end
                     s.base_ms += down_s * 1000;
-                    // "the node was down for D seconds": age every stored attempt time by D
+                    // The plugin reads the wall clock only to compare it with stored attempt
+                    // times. Virtual time that passed since an attempt was recorded (ticks of
+                    // earlier lifetimes + downtimes, all on the 5 s grid) is made visible to it
+                    // by ageing the stored attempt time accordingly.
+                    self.grid_s += down_s;
                     let keys: Vec<Vec<String>> = s.node.datastore.keys().cloned().collect();
                     for k in keys {
                         if k.last().map(|x| x == "state").unwrap_or(false) {
                             let (st, g) = s.node.datastore[&k].clone();
                             if let Ok(mut v) = serde_json::from_str::<Value>(&st) {
                                 if let Some(t) = v.get("Pending").and_then(|p| p.get("attempt_time_seconds")).and_then(|t| t.as_u64()) {
-                                    v["Pending"]["attempt_time_seconds"] = json!(t.saturating_sub(down_s));
+                                    let (written, aged) = self.pending_meta.get(&k).cloned().unwrap_or((self.grid_s, 0));
+                                    let total = self.grid_s.saturating_sub(written);
+                                    let delta = total.saturating_sub(aged);
+                                    self.pending_meta.insert(k.clone(), (written, total));
+                                    v["Pending"]["attempt_time_seconds"] = json!(t.saturating_sub(delta));
                                     s.node.datastore.insert(k, (v.to_string(), g));
                                 }
                             }
@@ -607,6 +621,7 @@ impl World {
                         }
                     }
                 }
+                .pending_note(&r.params, self.grid_s, &mut self.pending_meta),
                 "listdatastore" | "listsendpays" | "waitsendpay" => {
                     let idx = s.node.reads_seen;
                     s.node.reads_seen += 1;
@@ -780,6 +795,7 @@ impl World {
         for _ in 0..secs * 5 {
             tokio::time::sleep(Duration::from_millis(200)).await;
         }
+        self.grid_s += secs;
     }
 
     fn block(&mut self, lt: &Lifetime, h: u32) {
@@ -1111,5 +1127,24 @@ impl World {
 impl World {
     pub fn log(&self) -> Vec<Rec> {
         self.shared.lock().unwrap().log.clone()
+    }
+}
+
+trait PendingNote: Sized {
+    fn pending_note(self, params: &Value, grid: u64, meta: &mut std::collections::BTreeMap<Vec<String>, (u64, u64)>) -> Self;
+}
+
+impl PendingNote for (Value, bool, bool) {
+    /// remembers when a Pending state record was (re)written, for the ageing at the next crash
+    fn pending_note(self, params: &Value, grid: u64, meta: &mut std::collections::BTreeMap<Vec<String>, (u64, u64)>) -> Self {
+        if self.1 {
+            let key: Vec<String> = params["key"].as_array().map(|a| a.iter().filter_map(|x| x.as_str().map(String::from)).collect()).unwrap_or_default();
+            let is_state = key.last().map(|k| k == "state").unwrap_or(false);
+            let is_pending = params["string"].as_str().map(|s| s.contains("Pending")).unwrap_or(false);
+            if is_state && is_pending {
+                meta.insert(key, (grid, 0));
+            }
+        }
+        self
     }
 }
